@@ -532,11 +532,16 @@ def j_ns(name, fn, pre, kw, out):
     res = out[1].get("AXA-A") if isinstance(out[1], dict) else None
     if res is not None and len(res):
         true = ofro(omul(omul(A, X), A) - A)
-        if true > 2.0 ** -40 * nrmA:
+        # the level below which ||AXA - A|| is rounding noise: products with X ~ A^+ carry errors of eps * cond(A) * ||A||
+        # (the same 2^-44 cond convention as C04's residual floor); for well-conditioned A this is the former 2^-40 ||A||
+        sv_ = osvals(A)
+        cond_ = float(sv_[0] / max(sv_[min(r, len(sv_)) - 1], 1e-300)) if r >= 1 else 1.0
+        noise = max(2.0 ** -40, 2.0 ** -44 * cond_) * nrmA
+        if true > noise:
             o.lgle("ResidualHistoryTruthful", abs(float(res[-1]) - true), 0.03 * true, 0)
         hist = [float(x) for x in res]
         if full:
-            o.flag("E1NeverIncreases", all(hist[i + 1] <= hist[i] * (1 + 2.0 ** -5) + 2.0 ** -40 * nrmA for i in range(len(hist) - 1)))
+            o.flag("E1NeverIncreases", all(hist[i + 1] <= hist[i] * (1 + 2.0 ** -5) + noise for i in range(len(hist) - 1)))
     return [o]
 
 
